@@ -2,7 +2,19 @@ import sys
 pid, wt = sys.argv[1], sys.argv[2]
 ROUND_E = len(sys.argv) > 3 and sys.argv[3] == 'e'
 ROUND_F = len(sys.argv) > 3 and sys.argv[3] == 'f'
+ROUND_G = len(sys.argv) > 3 and sys.argv[3] == 'g'
 EXTRA = ''
+ROUND_G_TEXT = (' THIS ROUND: each change must be a PERFORMANCE OPTIMISATION GONE SUBTLY WRONG. Write each patch the way a performance-minded maintainer writes a real speed-up '
+                '(10-60 changed lines, with a plausible comment about what is saved): a fast path for a common special case (zero, identity, diagonal, equal sizes, t==0, already sorted, single node), '
+                'work skipped when an operand "cannot matter", a loop unrolled or blocked with a remainder, invariants hoisted out of loops or out of functions into members/statics, results or buffers reused between calls, '
+                'copies avoided by aliasing or moving, allocations avoided by reusing storage, a lookup table or precomputed constant, lazy evaluation, an integer or float trick replacing a library call, a cheaper comparison. '
+                'The optimisation must be exactly right for ordinary inputs and for everything the test suite does; the flaw is that the assumption behind it fails in a corner the property still covers: '
+                'the special case is detected with a test that is slightly too generous, the skipped work mattered for one wrapper (= versus +=) or one operand category, the remainder loop is wrong for one residue, '
+                'the hoisted value is not invariant across one rarely used call, the reused buffer is too small or stale for one sequence of dimensions/objects/threads, the aliasing breaks when operands coincide, '
+                'the table is right except at its last entry, the trick fails for negative/huge/denormal/NaN arguments. '
+                'Earlier rounds already used: t==0 shortcuts in PrepareEvolve, skipping a==0 in scalar multiplication, diagonal shortcut in GetEigenSystem and matrix_exponential, memoised Identity/H0/mixing matrix/eigensystem, '
+                'thread-local scratch matrices rewritten on the diagonal only, persistent GSL driver, Get_i memo, shift instead of pow, block comparison in operator==, swap-based move assignment, caching unaligned blocks - do not repeat those. '
+                'The library is built with assertions ENABLED (no -DNDEBUG): do not rely on NDEBUG. Effects that exist only through IEEE rounding or overflow of huge finite values are NOT wanted (the framework reasons over the reals); NaN/zero/sign/exactly-equal corner cases are fine.')
 ROUND_F_TEXT = (' THIS ROUND: each change must be a REFACTORING GONE SUBTLY WRONG. Write each patch the way a maintainer writes a genuine, moderately sized clean-up '
                 '(10-60 changed lines): extract a helper from duplicated code, replace a hand-written loop by a standard algorithm or the reverse, restructure nested ifs into early returns, '
                 'hoist or cache a sub-expression, memoise a result or reuse a scratch buffer between calls, merge two near-identical overloads through a shared implementation, replace a macro by an alias/constexpr, '
@@ -41,4 +53,4 @@ Work through the three changes one after the other; after finishing change k, re
 
 Practical notes: when multiplying an expression object by a scalar in test code write `3.0` not `3` (a template quirk picks the wrong overload for int literals). The Makefile, settings.mk and include/SQuIDS/version.h in the worktree are untracked build files: leave them alone and keep them out of the patches.
 
-In your final message give, for each change, a 3-line summary: the change, what it needs to manifest, the observed demo results in both directions.""".format(wt=wt, pid=pid, extra=EXTRA, round_e=(' Earlier rounds of this exercise already produced the textbook slips (a flipped sign or wrong constant in one generated table entry, integer division inside sqrt, an off-by-one in the obvious loop, release-before-allocate, a static that lost thread_local, memcmp equality, reciprocal division, upper_bound instead of lower_bound at the last node, a diagonal shortcut that looks at one triangle only). Go beyond those: prefer interactions between two functions (a helper whose contract is subtly changed while one caller relies on the old contract), state that survives between calls, argument combinations at the edges of the validated ranges, overloads that are rarely used (rvalue-qualified operators, guarantee<> wrappers, buffer-taking variants, the move constructor), error paths, and configuration macros (SQUIDS_USE_STORAGE_CACHE, SQUIDS_THREAD_LOCAL, NDEBUG assertions).' if ROUND_E else (ROUND_F_TEXT if ROUND_F else ''))))
+In your final message give, for each change, a 3-line summary: the change, what it needs to manifest, the observed demo results in both directions.""".format(wt=wt, pid=pid, extra=EXTRA, round_e=(' Earlier rounds of this exercise already produced the textbook slips (a flipped sign or wrong constant in one generated table entry, integer division inside sqrt, an off-by-one in the obvious loop, release-before-allocate, a static that lost thread_local, memcmp equality, reciprocal division, upper_bound instead of lower_bound at the last node, a diagonal shortcut that looks at one triangle only). Go beyond those: prefer interactions between two functions (a helper whose contract is subtly changed while one caller relies on the old contract), state that survives between calls, argument combinations at the edges of the validated ranges, overloads that are rarely used (rvalue-qualified operators, guarantee<> wrappers, buffer-taking variants, the move constructor), error paths, and configuration macros (SQUIDS_USE_STORAGE_CACHE, SQUIDS_THREAD_LOCAL, NDEBUG assertions).' if ROUND_E else (ROUND_F_TEXT if ROUND_F else (ROUND_G_TEXT if ROUND_G else '')))))
